@@ -426,3 +426,29 @@ def apply_ufunc(ufunc, *ins):
     if isinstance(res, np.ndarray):
         return res.view(SymArray)
     return res
+
+
+# ---- layout / dtype normalisers that numpy does not dispatch through __array_function__ -------------------------------
+# np.require / np.ascontiguousarray / np.asfortranarray with a floating dtype would call float() on every symbolic entry.
+# In exact real arithmetic the cast of a field to the floating type it nominally has is the identity, so only the layout
+# part of the request is executed (copy exactly when numpy would copy for layout reasons: the object array has the same
+# shape/stride structure as the numeric one).  Numeric arrays pass through untouched, so replays run the real thing.
+def _layout_only(orig):
+    def wrapped(a, dtype=None, *args, **kw):
+        if isinstance(a, np.ndarray) and a.dtype == object:
+            if dtype is not None and np.issubdtype(np.dtype(dtype), np.floating):
+                dtype = None
+            res = orig(a, dtype, *args, **kw)
+            if isinstance(a, SymArray) and isinstance(res, np.ndarray) and not isinstance(res, SymArray):
+                res = res.view(SymArray)
+            return res
+        return orig(a, dtype, *args, **kw)
+    wrapped.__name__ = getattr(orig, "__name__", "wrapped")
+    wrapped._symsopht_wrapped = True
+    return wrapped
+
+
+for _n in ("require", "ascontiguousarray", "asfortranarray"):
+    _o = getattr(np, _n)
+    if not getattr(_o, "_symsopht_wrapped", False):
+        setattr(np, _n, _layout_only(_o))
